@@ -77,6 +77,15 @@ def _one(seq):
         if not (abs(v[1]) <= v[0] + 1e-12 <= ntit + 1e-9) or (prev is not None and v[1] > prev + 1e-12):
             problems.append({'pH': pH, 'why': 'bounds / monotonicity', 'impl': v, 'previous_NCPR': prev})
         prev = v[1]
+    # the same pH handed over as another number type (int, numpy int, numpy float): the value must not depend on the type
+    import numpy as np
+    for pH in (0, 3, 7, 9, 10, 14, np.int64(4), np.int64(12), np.float64(6.5)):
+        st, v = call(lambda: (fnum(o.get_FCR(pH)), fnum(o.get_NCPR(pH)), fnum(o.get_mean_net_charge(pH)), fnum(o.get_fraction_expanding(pH))))
+        e = glue(seq, float(pH))
+        if st != 'ok' or any(abs(a - b) > 1e-9 for a, b in zip(v, e)):
+            problems.append({'pH': repr(pH), 'why': 'pH given as %s: differs from Henderson-Hasselbalch sums' % type(pH).__name__,
+                             'impl': [st, v], 'expected': e})
+            break
     for bad in (-1e-9, -1, 14 + 1e-9, 15, 1e9):
         for g in (o.get_FCR, o.get_NCPR, o.get_mean_net_charge, o.get_fraction_expanding):
             if call(g, bad)[0] != 'rejected':
